@@ -158,11 +158,17 @@ def _write_and_invalidate(obj, attr, value, metadata, inplace, skip_invalidation
             invalidate_attrs(obj, attr, metadata.invalidation_map)
 
 
-def invalidate_attrs(obj: Any, attr: str, invalidation_map: Dict[str, Set[str]] = None):
+def invalidate_attrs(
+    obj: Any,
+    attr: str,
+    invalidation_map: Dict[str, Set[str]] = None,
+    _seen: Optional[Set[str]] = None,
+):
     if invalidation_map is None:
         invalidation_map = obj.__spec_class__.invalidation_map
     if not invalidation_map:
         return
+    seen = {attr} if _seen is None else _seen
 
     # Handle invalidation
     for invalidatee in invalidation_map.get(attr, set()) | invalidation_map.get(
@@ -175,7 +181,11 @@ def invalidate_attrs(obj: Any, attr: str, invalidation_map: Dict[str, Set[str]] 
         except AttributeError:
             # Nothing stored for this attribute (e.g. a property whose cache
             # has not been filled), but its own dependants are stale too.
-            invalidate_attrs(obj, invalidatee, invalidation_map)
+            # (`seen` bounds the walk when dependencies are mutual, e.g. two
+            # attributes both invalidated by "*".)
+            if invalidatee not in seen:
+                seen.add(invalidatee)
+                invalidate_attrs(obj, invalidatee, invalidation_map, seen)
 
 
 def mutate_value(
